@@ -30,7 +30,8 @@ def run(ctx):
     k = 2 if quick else 5
     stats = {"schemas": 0, "kernel_rejected": 0, "types": 0, "unmodelled_types": 0, "values": 0, "alt_ops": 0, "alt_noncanonical": 0,
              "mut_ops": 0, "mut_changed": 0, "model_unrep": 0, "model_fuel": 0, "budget_skips": 0,
-             "verdicts": {"alt": {}, "mut": {}}}
+             "maybe_ops": 0, "maybe_shapes_available": 0, "maybe_order_pairs": 0,
+             "verdicts": {"alt": {}, "mut": {}, "maybe": {}}}
     mism, bad, samples, unit_errors, skipped_types = [], [], [], [], {}
     lock = threading.Lock()
     rngs = {u.name: random.Random(ctx.rng.getrandbits(64)) for u in units}
@@ -83,8 +84,9 @@ def run(ctx):
             return
         canon_read = {h: c for (t, n, h, _), c, w in zip(inp, cr, wj) if w.startswith("ok ")}
         st = dict(ju.stats)
-        st.update({"schemas": 1, "values": len(inp), "alt_ops": 0, "alt_noncanonical": 0, "mut_ops": 0, "mut_changed": 0, "model_unrep": 0, "model_fuel": 0})
-        verd = {"alt": {}, "mut": {}}
+        st.update({"schemas": 1, "values": len(inp), "alt_ops": 0, "alt_noncanonical": 0, "mut_ops": 0, "mut_changed": 0, "model_unrep": 0, "model_fuel": 0,
+                   "maybe_ops": 0, "maybe_shapes_available": 0, "maybe_order_pairs": 0})
+        verd = {"alt": {}, "mut": {}, "maybe": {}}
         umism, ubad = [], []
         for (kind, t, n, h, seed), m, g in zip(ops, mo, go):
             f = m.split(" ")
@@ -132,6 +134,57 @@ def run(ctx):
                     else:
                         sig = f"C06:alt-differs-from-canonical:{u.name}:{n}"
                     ubad.append((u.name, op, f"canonical text reads as {trunc(c, 100)}, this spelling as {trunc(g, 100)}", sig))
+        # Maybe objects exhaustively (model generator jvariants): every Maybe-like object of the canonical / an alternative
+        # spelling in every shape Json2ReadMaybe has a rule for, both member orders
+        mv_in = [(t, n, h, rng.getrandbits(60)) for t, n, h, _ in inp]
+        try:
+            mvo = model_run(ref, ju, [f"mvar {t} 1 {h} {seed}" for t, n, h, seed in mv_in])
+        except RuntimeError as e:
+            mvo = []
+            with lock:
+                unit_errors.append((u.name, str(e)))
+        mv_items = []
+        for (t, n, h, seed), o in zip(mv_in, mvo):
+            f = o.split(" ")
+            if f[0] != "ok" or len(f) < 3:
+                continue
+            st["maybe_shapes_available"] += int(f[1])
+            for it in f[2:]:
+                if not it:
+                    continue
+                parts = it.split(":")
+                mv_items.append((t, n, h, seed, parts[0], " ".join(parts[1:])))
+        if mv_items:
+            rc3, mgo, err3 = run_lines(u.gen.exe, [], [f"rj {n} {txt}" for t, n, h, seed, txt, verdict in mv_items], timeout=900)
+            if rc3 != 0 or len(mgo) != len(mv_items):
+                with lock:
+                    unit_errors.append((u.name, f"go driver failed on the Maybe stream: {err3[-200:]}"))
+            else:
+                groups = {}
+                for (t, n, h, seed, txt, verdict), g in zip(mv_items, mgo):
+                    st["maybe_ops"] += 1
+                    vw = verdict.split(" ")[0]
+                    verd["maybe"][vw] = verd["maybe"].get(vw, 0) + 1
+                    jtxt = bytes.fromhex(txt).decode("utf-8", "replace") if txt != "-" else ""
+                    op = f"maybe {n} seed={seed} tl1={trunc(h, 60)} json={trunc(jtxt, 240)}"
+                    if vw in ("unrep", "fuel"):
+                        continue
+                    if verdict != g:
+                        umism.append((u.name, op, verdict, g))
+                    # oracle on Go only: texts that differ only in the order of object members are read alike
+                    try:
+                        canon = json.dumps(json.loads(jtxt, object_pairs_hook=lambda l: ("o", sorted(((k_, json.dumps(v_, sort_keys=True)) for k_, v_ in l)))), sort_keys=True)
+                    except Exception:  # noqa
+                        canon = None
+                    if canon is not None:
+                        key = (n, h, seed, canon)
+                        if key in groups and groups[key][0] != g:
+                            ubad.append((u.name, op, f"read as {trunc(g, 80)}, but the same members in another order ({trunc(groups[key][1], 160)}) as {trunc(groups[key][0], 80)}",
+                                         f"C06:member-order-dependent:{u.name}:{n}"))
+                        elif key in groups:
+                            st["maybe_order_pairs"] += 1
+                        else:
+                            groups[key] = (g, jtxt)
         with lock:
             for kk in st:
                 if isinstance(st[kk], int):
@@ -161,7 +214,7 @@ def run(ctx):
         if sig in seen:
             continue
         seen.add(sig)
-        ctx.violation(sig, f"{name}: alternative spelling is not read like the canonical form: {trunc(op, 300)}: {trunc(what, 220)}", {"unit": name, "op": op, "go": what})
+        ctx.violation(sig, f"{name}: JSON text is not read as the TL JSON mapping says: {trunc(op, 300)}: {trunc(what, 220)}", {"unit": name, "op": op, "go": what})
     if not ctx.violations:
         if cres.get("Prim"):
             ctx.violation(f"{pid}:tconst", "translator T-const failed: " + cres["Prim"], {"theorem": "coq/theories/Props/C06.v", "error": cres["Prim"]}, no_input=True)
@@ -171,7 +224,7 @@ def run(ctx):
             ctx.violation(f"{pid}:tools", "cannot build tl2gen/verifdump from /repo: " + trunc(berr, 600), {"error": berr}, no_input=True)
         if ref_err:
             ctx.violation(f"{pid}:model-build", "reference model does not build: " + trunc(ref_err, 600), {"error": ref_err}, no_input=True)
-        for name, e in unit_errors[:10]:
+        for name, e in reportable_unit_errors(unit_errors, ctx)[:10]:
             ctx.violation(f"{pid}:unit:{name}", f"schema unit {name}: {trunc(e, 600)}", {"unit": name, "error": e}, no_input=True)
         for name, l, m, g in mism[:30]:
             ctx.violation(f"{pid}:corr:{name}:{trunc(l, 60)}", f"corr:C06:alt {name}: model and generated reader differ on {trunc(l, 300)}: model={trunc(m, 120)} go={trunc(g, 120)}",
@@ -186,11 +239,11 @@ def run(ctx):
                          "Go harness harness/go/gendrv (ops_json.go); comparison in lib/checks/C06.py",
                          "axioms: " + (", ".join(thm["axioms"]) if thm["axioms"] else "none (every theorem closed under the global context)")],
         "theorems": thm["statements"], "assumptions_per_theorem": thm["assumptions"],
-        "evaluations": stats["alt_ops"] + stats["mut_ops"], "distinct_nontrivial": stats["alt_noncanonical"] + stats["mut_changed"],
+        "evaluations": stats["alt_ops"] + stats["mut_ops"] + stats["maybe_ops"], "distinct_nontrivial": stats["alt_noncanonical"] + stats["mut_changed"],
         "rule": "per schema and value: k alternative spellings (jsonw_alt: numbers as strings, strings as base64 objects, empty members written / omitted, implied mask bits dropped, members reordered, "
                 "enum/union/Maybe forms, variant names) and k mutations (mutate: unknown key, duplicate key, array one longer / shorter, ok:false with value, true-typed member false, type confusion) "
-                "generated by the MODEL, printed, read by the generated ReadJSONGeneral; verdict and TL1 re-encoding compared with jsonr; oracle on Go only: every alternative spelling decodes to the "
-                "TL1 bytes of the canonical text; non-trivial = spelling differs from the canonical tree",
+                "and, for every Maybe-like object anywhere in the tree, every shape Json2ReadMaybe has a rule for in BOTH member orders (jvariants: ok:false+value, ok:true+value, value alone, ok alone, duplicates, non-boolean ok, unknown key) generated by the MODEL, printed, read by the generated ReadJSONGeneral; verdict and TL1 re-encoding compared with jsonr; oracle on Go only: every alternative spelling decodes to the "
+                "TL1 bytes of the canonical text, texts that differ only in member order are read alike, top-level unknown / duplicate keys are not accepted; non-trivial = spelling differs from the canonical tree",
         "stats": stats, "correspondence": "corr:C06:alt", "correspondence_mismatches": len(mism), "oracle_failures": len(bad),
         "unmodelled": {"types_skipped": dict(list(skipped_types.items())[:40]),
                        "constructs": ["byte/bit/uint64 primitives and TL2-origin types", "bytes versions", "legacy constructor spellings are only checked to be rejected (LegacyTypeNames=false)",
